@@ -604,11 +604,17 @@ func AppendFunction(name string) ZlispUserFunction {
 		case *SexpArray:
 			switch name {
 			case "append":
-				return &SexpArray{Val: append(t.Val, args[1]), Env: env, Typ: t.Typ}, nil
+				// a fresh backing array: two appends to the same
+				// array must not overwrite each other's element
+				nv := make([]Sexp, len(t.Val), len(t.Val)+1)
+				copy(nv, t.Val)
+				return &SexpArray{Val: append(nv, args[1]), Env: env, Typ: t.Typ}, nil
 			case "appendslice":
 				switch sl := args[1].(type) {
 				case *SexpArray:
-					return &SexpArray{Val: append(t.Val, sl.Val...), Env: env, Typ: t.Typ}, nil
+					nv := make([]Sexp, len(t.Val), len(t.Val)+len(sl.Val))
+					copy(nv, t.Val)
+					return &SexpArray{Val: append(nv, sl.Val...), Env: env, Typ: t.Typ}, nil
 				default:
 					return SexpNull, fmt.Errorf("Second argument of appendslice must be slice")
 				}
